@@ -42,4 +42,34 @@ def C03(ctx):
     memory_model(ctx, ("sound", "trace"), avoid=(families.q_mo,))
 
 
-CHECKS = {"C02": C02, "C03": C03}
+def sync_family(ctx, progs, want=("complete", "sound", "fails", "trace"), tcap=None, waive=True):
+    """generic: Lower(P) <= loom(P) <= Upper(P), failure kinds, and trace validation of every recorded iteration"""
+    lower, upper = core.lower_upper(ctx, progs, families.has_sc_access, coverage=True)
+    tcap = tcap if tcap is not None else (30 if ctx.tier == "quick" else 300)
+    res = core.run_loom(ctx, progs, cfg_of=lambda p: {"iter_cap": iter_cap(ctx.tier), "trace_cap": tcap if "trace" in want else 0})
+    nontriv = 0
+    for p, lo, up, r in zip(progs, lower, upper, res):
+        wv = families.waived(p) if waive else {}
+        for k, f in wv.items():
+            if k in want:
+                ctx.cov["waived"] = ctx.cov.get("waived", {})
+                ctx.cov["waived"][f] = ctx.cov["waived"].get(f, 0) + 1
+        if core.compare_sandwich(ctx, p, lo, up, r, want=tuple(w for w in want if w not in wv)):
+            nontriv += 1
+        core.sample(ctx, p, lo, up, r)
+    if "trace" in want:
+        core.validate_traces(ctx, progs, res)
+    ctx.cov["programs"] += len(progs)
+    ctx.cov["evaluations"] += len(progs)
+    ctx.cov["distinct_nontrivial"] += nontriv
+    return lower, upper, res
+
+
+def C01(ctx):
+    ctx.assumptions += ["Spec_interleaved(P) (plain interleaving, no reduction) is the lower bound for programs with "
+                        "SeqCst atomics; Upper(P) treats SeqCst accesses as acquire/release"]
+    progs = families.syncmix(ctx.tier, ctx.seed)
+    sync_family(ctx, progs)
+
+
+CHECKS = {"C01": C01, "C02": C02, "C03": C03}
